@@ -498,7 +498,7 @@ func load1() float64 {
 	return v
 }
 
-func overloaded() bool { return load1() > 1.5*float64(runtime.NumCPU()) }
+func overloaded() bool { return load1() > float64(runtime.NumCPU()) }
 
 func timedShape(shape string) bool {
 	return strings.Contains(shape, "hang") || strings.Contains(shape, "timeout") || strings.Contains(shape, "stuck")
